@@ -52,6 +52,11 @@ type PtrSV struct {
 	Glob *ssa.Global // pkGlobal
 	Root types.Type  // type of the root object (heap object type, element type, cell type)
 	Path []pathEl
+	// Either: pkHeap pointer whose term may also denote an element of a slice or
+	// array of Root (terms below elemPtrLimit encode (backing, index) pairs)
+	Either bool
+	// MaybeNil: pkElem pointer merged with nil (Ref == 0 encodes nil)
+	MaybeNil bool
 }
 
 type FuncSV struct {
@@ -254,6 +259,9 @@ func (e *Engine) ptrTerm(v SV) string {
 		if p.Kind == pkGlobal && len(p.Path) == 0 {
 			return e.globalRef(p.Glob)
 		}
+		if p.Kind == pkElem && len(p.Path) == 0 && e.elemPointable[e.typeKey(p.Root)] {
+			return e.elemPtrTerm(p.Ref, p.Idx)
+		}
 		panic(engErr(fmt.Sprintf("interior/local pointer escapes (kind %d, path %v, root %v)", p.Kind, p.Path, p.Root)))
 	}
 	panic(engErr(fmt.Sprintf("ptrTerm: %T", v)))
@@ -289,7 +297,7 @@ func (e *Engine) unflatten(t types.Type, ts []string) (SV, []string) {
 		}
 		return tv, ts
 	case *types.Pointer:
-		return &PtrSV{Kind: pkHeap, Ref: ts[0], Root: u.Elem()}, ts[1:]
+		return e.heapPtr(ts[0], u.Elem()), ts[1:]
 	case *types.Signature:
 		return &FuncSV{Term: ts[0]}, ts[1:]
 	}
@@ -363,3 +371,103 @@ func (e *Engine) zero(t types.Type) SV { return e.unflat(t, e.zeroLeaves(t)) }
 type engErr string
 
 func (e engErr) Error() string { return string(e) }
+
+// Element pointers that escape into terms (merged with nil, passed to a callee under
+// contract, stored): encoded as eptr(backing, index), an Int below elemPtrLimit with
+// projections eptr_b/eptr_i. Only for element types in elemPointable (decided on the
+// SSA of the loaded packages: some &s[i] of that struct type is used as a value).
+const elemPtrLimit = "(- 1000000)"
+
+func (e *Engine) elemPtrTerm(ref, idx string) string {
+	vc := e.vc
+	is := e.ar.idxSort()
+	vc.declareFun("eptr", []string{"Int", is}, "Int")
+	vc.declareFun("eptr_b", []string{"Int"}, "Int")
+	vc.declareFun("eptr_i", []string{"Int"}, is)
+	if ref == "0" {
+		return "0"
+	}
+	// a backing reference of 0 encodes the nil pointer (see mergeSV)
+	t := vc.define("ep", "Int", fmt.Sprintf("(ite (= %s 0) 0 (eptr %s %s))", ref, ref, idx))
+	vc.assume("true", fmt.Sprintf("(=> (not (= %s 0)) (and (= (eptr_b %s) %s) (= (eptr_i %s) %s) (< %s %s)))", ref, t, ref, t, idx, t, elemPtrLimit))
+	return t
+}
+
+func (e *Engine) heapPtr(ref string, root types.Type) *PtrSV {
+	p := &PtrSV{Kind: pkHeap, Ref: ref, Root: root}
+	if e.elemPointable[e.typeKey(root)] && !strings.HasPrefix(ref, "wm!") && ref != "0" {
+		p.Either = true
+	}
+	return p
+}
+
+// splitEither: the two readings of an Either pointer and the condition selecting the
+// element reading.
+func (e *Engine) splitEither(p *PtrSV) (isElem string, asElem, asHeap *PtrSV) {
+	vc := e.vc
+	is := e.ar.idxSort()
+	vc.declareFun("eptr_b", []string{"Int"}, "Int")
+	vc.declareFun("eptr_i", []string{"Int"}, is)
+	isElem = fmt.Sprintf("(< %s %s)", p.Ref, elemPtrLimit)
+	h := *p
+	h.Either = false
+	el := &PtrSV{Kind: pkElem, Ref: fmt.Sprintf("(eptr_b %s)", p.Ref), Idx: fmt.Sprintf("(eptr_i %s)", p.Ref), Root: p.Root, Path: p.Path}
+	if len(p.Path) > 0 {
+		// Root of a heap pointer with a path is the struct type itself; same for elements
+		el.Root = p.Root
+	}
+	return isElem, el, &h
+}
+
+// computeElemPointable scans the loaded packages for &s[i] expressions of struct
+// element type whose value is used other than as the address of an immediate load,
+// store or field access: pointers to such elements can reach pointer-typed variables.
+func (e *Engine) computeElemPointable() {
+	e.elemPointable = map[string]bool{}
+	var paths []string
+	for p := range e.spkgs {
+		paths = append(paths, p)
+	}
+	sortStrings(paths)
+	for _, path := range paths {
+		if !strings.HasPrefix(path, "github.com/enfein/mieru") {
+			continue
+		}
+		for _, fn := range e.pkgFunctions(path) {
+			for _, b := range fn.Blocks {
+				for _, in := range b.Instrs {
+					ia, ok := in.(*ssa.IndexAddr)
+					if !ok {
+						continue
+					}
+					pt, ok := ia.Type().Underlying().(*types.Pointer)
+					if !ok {
+						continue
+					}
+					if _, isStruct := pt.Elem().Underlying().(*types.Struct); !isStruct {
+						continue
+					}
+					refs := ia.Referrers()
+					if refs == nil {
+						continue
+					}
+					for _, r := range *refs {
+						switch u := r.(type) {
+						case *ssa.FieldAddr:
+							continue
+						case *ssa.UnOp:
+							continue // load
+						case *ssa.Store:
+							if u.Addr == ssa.Value(ia) && u.Val != ssa.Value(ia) {
+								continue
+							}
+						case *ssa.DebugRef:
+							continue
+						}
+						e.elemPointable[e.typeKey(pt.Elem())] = true
+					}
+				}
+			}
+		}
+	}
+}
